@@ -30,6 +30,7 @@ type Solver struct {
 	depth int
 	dead  bool
 	trace io.Writer
+	lastAssert string
 }
 
 func solverArgv(name string) []string {
@@ -71,9 +72,20 @@ func startSolver(name string) (*Solver, error) {
 	return s, nil
 }
 
+var slowLog io.Writer
+
+func init() {
+	if f := os.Getenv("GOSYM_SLOW_LOG"); f != "" {
+		slowLog, _ = os.OpenFile(f, os.O_CREATE|os.O_WRONLY|os.O_TRUNC, 0o644)
+	}
+}
+
 func (s *Solver) send(line string) {
 	if s.dead {
 		return
+	}
+	if strings.HasPrefix(line, "(assert") {
+		s.lastAssert = line
 	}
 	if s.trace != nil {
 		fmt.Fprintln(s.trace, line)
@@ -181,6 +193,9 @@ func (s *Solver) Check(timeoutMs int) string {
 	}
 	atomic.AddInt64(&gStats.queries, 1)
 	atomic.AddInt64(&gStats.nanos, int64(time.Since(t0)))
+	if slowLog != nil && time.Since(t0) > time.Second {
+		fmt.Fprintf(slowLog, "SLOW %.1fs %s pid=%d last=%s\n", time.Since(t0).Seconds(), ans, s.cmd.Process.Pid, s.lastAssert)
+	}
 	switch ans {
 	case "sat":
 		atomic.AddInt64(&gStats.sat, 1)
